@@ -16,8 +16,8 @@ def jobs(tier):
         for typ in ALL_TYPES:
             js.append({"mode": "ctor", "table": table, "type": typ, "allowed": typ in allowed})
     subjects = [("IN", t) for t in IN_TYPES] + [("OUT", t) for t in OUT_TYPES] + [("INTRA", "MOVE"), ("INTRA", "MOVE-self")]
-    contexts = ["BS"] if tier == "quick" else ["BS", "BSM", "BMS", "IBS"]
-    methods = ["fifo", "hifo"] if tier == "quick" else ["fifo", "lifo", "hifo", "lofo"]
+    contexts = ["BS"] if tier == "quick" else ["BS", "BSM", "IBS"]
+    methods = ["fifo", "hifo"] if tier == "quick" else ["fifo", "lifo", "hifo"]
     for ctx in contexts:
         for table, typ in subjects:
             for pos in range(len(ctx) + 1):
@@ -39,7 +39,7 @@ def weight(spec):
 def bounds(tier):
     return {
         "constructor_table": "14 types x {IN, OUT} tables, symbolic amount/price/fee",
-        "histories": "context %s with the subject slot (each of 10 IN types, 6 OUT types, MOVE between two accounts, MOVE to the same account) inserted at every position" % (["BS"] if tier == "quick" else ["BS", "BSM", "BMS", "IBS"]),
+        "histories": "context %s with the subject slot (each of 10 IN types, 6 OUT types, MOVE between two accounts, MOVE to the same account) inserted at every position" % (["BS"] if tier == "quick" else ["BS", "BSM", "IBS"]),
         "amounts": "k*1e-11, k in [1, 1e20]; fees k in [0, 1e20]",
         "prices": "k*1e-4, k in [1, 1e10]",
         "outside": ["negative STAKING income", "exchange-supplied fiat columns (C04)", "longer histories"],
